@@ -145,6 +145,11 @@ def make_pairs(ctx, ck, rules, text, L, nsample, Lall, tag):
         for b in short:
             ask.add((a, b))
     allidx = list(range(nb))
+    # every pair of names that each match some rule (the pairs that can be answered yes), when there are few
+    pool = hit if len(hit) <= 45 else rng.sample(hit, 45)
+    for a in pool:
+        for b in pool:
+            ask.add((a, b))
     for _ in range(nsample):
         a = rng.choice(hit) if hit and rng.random() < 0.85 else rng.choice(allidx)
         b = rng.choice(hit) if hit and rng.random() < 0.7 else rng.choice(allidx)
@@ -179,7 +184,7 @@ def stage_c(ctx, procs):
     L = ctx.pick(3, 4)
     Lall = 2
     nsample = ctx.pick(800, 5000)
-    gen = K.Gen(ctx.rng, signing=0.85, p_forward=0.2)
+    gen = K.Gen(ctx.rng, signing=0.85, p_forward=0.2, p_redef=0.3, p_twin=0.6, force_twin=0.6)
     recs, rejected, sid, nyes = [], 0, 0, 0
     while len(recs) < n and sid < 4 * n:
         sid += 1
